@@ -37,6 +37,19 @@ R3 normal form: *every* result of `_normalize_storage` (all returns, bare return
    `is_normalized` is `all(key == disk.mount_point)` over `self.storage.items()`; no arithmetic/comparison
    method of `Hardware` (enumerated through the class table, merge operators `__or__/__ior__` excepted) reads
    `.storage` of an operand without normalising it.
+R4 ownership: every `Hardware` owns its storage map.  The in-place operators (`Hardware.__ior__` inserts keys into
+   `self.storage` and merges `self.storage[key] |= disk`, `Storage.__ior__` raises `size` in place) and the connectors
+   that fill `Hardware(cores, memory).storage[mount] = ...` write into that map, so `Hardware()` stays the neutral
+   element of `+`/`-`/`satisfies` only while no two instances share it.  Necessary condition, decided by def-use on
+   every store into `<self>.storage` (whole map, `[key] = v`, `.update(m)`, `.setdefault(k, v)`) of every method of
+   the class (enumerated through the class table; `__init__` must have one): each possible value -- `or`/`and`
+   operands, both arms of a conditional expression, temporaries, loop/comprehension elements, the results of a helper
+   the value resolves to (at most 3 frames, parameters bound by signature; a parameter of a private helper is
+   followed to the call sites) -- is the caller's argument or an object created by that evaluation.  Reported: a
+   module-level or class-level mutable object (also behind a shallow copy `dict(X)` / `X.copy()` / `{**X}` /
+   `X[k]` / `X.get(k)`, because the `Storage` objects stay shared; `copy.deepcopy` is accepted), a mutable default
+   argument (an empty one that is only the left operand of `or` can never be selected and is accepted), the result
+   of a memoised helper (`functools.cache` / `lru_cache`), and a mutable class-level `storage` attribute.
 
 Not decided (reported as violations rather than interpreted): a shortcut whose emptiness test uses a formulation the
 guard folding does not know (anything but truthiness / comparison with 0 / len() / `any(d.size ...)` over the
@@ -70,9 +83,12 @@ META = {
         "to parameters by signature, operands are resolved through def-use (temporaries, walrus), operator kinds and "
         "operand identities are compared between the dual operators (__add__/__sub__), satisfies' cores/memory guard "
         "is folded on the CFG (4-row table), the storage clause is checked for quantifier (all), iteration source "
-        "(other, normalised), lookup key (same mount point) and direction (>=). Necessary conditions only."
+        "(other, normalised), lookup key (same mount point) and direction (>=). Every value stored into self.storage is "
+        "traced by def-use (helpers inlined, parameters followed) to the caller's argument or a fresh object; module-level, "
+        "class-level, memoised and mutable-default objects are reported. Necessary conditions only."
     ),
-    "undecided": "the algebraic laws themselves over fractional values (would need symbolic evaluation); __or__/__ior__ semantics",
+    "undecided": "R4 is shape-based: sharing through `setattr` / `__dict__`, through a default built by an unresolved call or through an "
+                 "object captured in a closure is not seen; the algebraic laws themselves over fractional values (would need symbolic evaluation); __or__/__ior__ semantics",
     "assumptions": ["dict iteration follows insertion order", "Storage sizes are compared as Python floats"],
 }
 
@@ -1149,10 +1165,311 @@ def r3(ctx):
         if name in RAW_OK:
             continue
         owners = set(m.params)
-        raw = [n for n in m.body_nodes() if isinstance(n, ast.Attribute) and n.attr == "storage" and isinstance(n.value, ast.Name) and n.value.id in owners]
+        raw = [n for n in m.body_nodes() if isinstance(n, ast.Attribute) and n.attr == "storage" and isinstance(n.value, ast.Name) and n.value.id in owners
+               and not isinstance(n.ctx, ast.Store)]  # binding the attribute (a constructor helper) is not a read
         ctx.ob("R3", f"Hardware.{name} reads storages only in normal form", not raw, func=m, node=raw[0] if raw else m.node, instance=f"{name}:normalised-only",
                message=f"Hardware.{name} reads `{_norm(raw[0]) if raw else ''}` without normalising it: aliasing keys / split mount points give wrong totals",
                trivial=not any(isinstance(n, ast.Attribute) and n.attr in ("_normalize_storage", "normalized") for n in m.body_nodes()))
+
+
+# =========================================================================== R4
+
+_MEMO = {"cache", "lru_cache", "cached_property", "cached", "memoize", "memoized"}
+_IMMUTABLE_CTORS = {"frozenset", "tuple", "str", "int", "float", "bool", "bytes", "MappingProxyType", "TypeVar", "namedtuple", "getLogger"}
+_SHALLOW = {"dict", "list", "tuple", "set", "frozenset", "iter", "sorted", "reversed", "OrderedDict", "copy"}
+
+
+def _mutable_value(e) -> bool:
+    """Is the module-/class-level or default value `e` an object that a later in-place update can change (a container
+    display, a comprehension, or the result of a call that is not a known immutable constructor)?"""
+    e = strip_await(e)
+    if isinstance(e, (ast.Dict, ast.List, ast.Set, ast.DictComp, ast.ListComp, ast.SetComp)):
+        return True
+    if isinstance(e, ast.IfExp):
+        return _mutable_value(e.body) or _mutable_value(e.orelse)
+    if isinstance(e, ast.BoolOp):
+        return any(_mutable_value(v) for v in e.values)
+    if isinstance(e, ast.NamedExpr):
+        return _mutable_value(e.value)
+    if isinstance(e, ast.Call):
+        return (dotted(e.func) or "?").rsplit(".", 1)[-1] not in _IMMUTABLE_CTORS
+    return False
+
+
+def _empty_display(e) -> bool:
+    e = strip_await(e)
+    if isinstance(e, ast.Dict):
+        return not e.keys
+    if isinstance(e, (ast.List, ast.Set)):
+        return not e.elts
+    return isinstance(e, ast.Call) and isinstance(e.func, ast.Name) and e.func.id in ("dict", "list", "set") and not e.args and not e.keywords
+
+
+def _toplevel_values(tree, name: str) -> list:
+    """Values assigned to `name` by the statements of a module / class body (not inside nested defs)."""
+    out = []
+    stack = list(tree.body)
+    while stack:
+        n = stack.pop()
+        if isinstance(n, (ast.FunctionDef, ast.AsyncFunctionDef, ast.ClassDef)):
+            continue
+        if isinstance(n, ast.Assign) and any(isinstance(t, ast.Name) and t.id == name for t in n.targets):
+            out.append(n.value)
+        elif isinstance(n, ast.AnnAssign) and n.value is not None and isinstance(n.target, ast.Name) and n.target.id == name:
+            out.append(n.value)
+        for fld in ("body", "orelse", "finalbody", "handlers"):
+            stack.extend(x for x in getattr(n, fld, []) or [] if isinstance(x, ast.AST))
+    return out
+
+
+def _bound_inside(e: ast.Name):
+    """The comprehension generator (inside the enclosing function) or lambda that binds name `e`, else None."""
+    from ..model import ancestors
+    for a in ancestors(e):
+        if isinstance(a, (ast.FunctionDef, ast.AsyncFunctionDef)):
+            return None
+        if isinstance(a, ast.Lambda) and any(x.arg == e.id for x in a.args.posonlyargs + a.args.args + a.args.kwonlyargs):
+            return a
+        if isinstance(a, (ast.ListComp, ast.SetComp, ast.DictComp, ast.GeneratorExp)):
+            for gen in a.generators:
+                if any(isinstance(x, ast.Name) and x.id == e.id for x in ast.walk(gen.target)):
+                    return gen
+    return None
+
+
+def _param_default(f, name: str):
+    a = f.node.args
+    pos = [x.arg for x in a.posonlyargs + a.args]
+    defaults = dict(zip(reversed(pos), reversed(a.defaults)))
+    for k, dv in zip(a.kwonlyargs, a.kw_defaults):
+        if dv is not None:
+            defaults[k.arg] = dv
+    return defaults.get(name)
+
+
+def _shared_objects(ctx, f, e, env=None, depth: int = 3, truthy_only: bool = False, seen: frozenset = frozenset(), budget: int = 12) -> list[str]:
+    """Descriptions of the objects not created by this evaluation that the value of `e` (frame `f`, helper
+    environment `env` as in `_root_name`) may be, or may hold as an element: module-level / class-level mutable
+    objects, mutable default arguments, results of memoised helpers.  The caller's argument, fresh displays and
+    constructor results, `copy.deepcopy(...)` and everything unknown yield nothing (only positively identified
+    sharing is reported)."""
+    from ..dataflow import _param_args
+    p = ctx.prog
+    if e is None or budget <= 0:
+        return []
+
+    def rec(x, *, f_=f, env_=env, depth_=depth, truthy=False, seen_=seen):
+        return _shared_objects(ctx, f_, x, env_, depth_, truthy, seen_, budget - 1)
+
+    e = strip_await(e)
+    if isinstance(e, (ast.NamedExpr, ast.Starred)):
+        return rec(e.value, truthy=truthy_only)
+    if isinstance(e, ast.IfExp):
+        return rec(e.body, truthy=truthy_only) + rec(e.orelse, truthy=truthy_only)
+    if isinstance(e, ast.BoolOp):
+        last = len(e.values) - 1
+        out = []
+        for i, v in enumerate(e.values):
+            out.extend(rec(v, truthy=(isinstance(e.op, ast.Or) and i < last) or (i == last and truthy_only)))
+        return out
+    if isinstance(e, ast.Dict):
+        out = []
+        for v in e.values:
+            out.extend(rec(v))
+        return out
+    if isinstance(e, (ast.List, ast.Set, ast.Tuple)):
+        return [x for v in e.elts for x in rec(v)]
+    if isinstance(e, ast.DictComp):
+        return rec(e.value)
+    if isinstance(e, (ast.ListComp, ast.SetComp, ast.GeneratorExp)):
+        return rec(e.elt)
+    if isinstance(e, ast.BinOp) and isinstance(e.op, (ast.BitOr, ast.Add)):
+        return rec(e.left) + rec(e.right)
+    if isinstance(e, ast.Subscript):
+        return rec(e.value)
+    if isinstance(e, ast.Name):
+        binder = _bound_inside(e)
+        if isinstance(binder, ast.Lambda):
+            return []
+        if binder is not None:
+            return rec(binder.iter)
+        key = (f.qualname, e.id)
+        if key in seen:
+            return []
+        seen2 = seen | {key}
+        ds = defs_of(f, e.id)
+        if ds:
+            out = []
+            for d in ds:
+                if d.kind == "param":
+                    if env is not None:
+                        caller, bind, up = env
+                        if e.id in bind:
+                            out.extend(_shared_objects(ctx, caller, bind[e.id], up, depth, truthy_only, seen2, budget - 1))
+                            continue
+                        dv = _param_default(f, e.id)
+                    else:
+                        sites = _param_args(p, f, e.id) if depth > 0 else None
+                        if sites is not None:
+                            for g, x in sites:
+                                if g is f:
+                                    if _mutable_value(x) and not (truthy_only and _empty_display(x)):
+                                        out.append(f"the mutable default `{_norm(x)}` of parameter `{e.id}` of {f.qualname.rsplit('.', 2)[-2] if f.cls else ''}.{f.name} (one object for every call)")
+                                else:
+                                    out.extend(_shared_objects(ctx, g, x, None, depth - 1, truthy_only, seen2, budget - 1))
+                            continue
+                        dv = _param_default(f, e.id)
+                    if dv is not None:
+                        if _mutable_value(dv) and not (truthy_only and _empty_display(dv)):
+                            out.append(f"the mutable default `{_norm(dv)}` of parameter `{e.id}` of {f.cls.name + '.' if f.cls else ''}{f.name} (one object for every call)")
+                        elif isinstance(dv, (ast.Name, ast.Attribute)):
+                            out.extend(_shared_objects(ctx, f, dv, None, 0, truthy_only, seen2, budget - 1) if not p._is_local(f, (dotted(dv) or "?").split(".")[0]) else [])
+                elif d.kind in ("assign", "walrus", "aug", "for", "comp"):
+                    v = d.value
+                    if d.kind == "assign" and d.index is not None:
+                        v = v.elts[d.index] if isinstance(v, (ast.Tuple, ast.List)) and d.index < len(v.elts) and not any(isinstance(x, ast.Starred) for x in v.elts) else None
+                    out.extend(_shared_objects(ctx, f, v, env, depth, truthy_only and d.kind in ("assign", "walrus"), seen2, budget - 1))
+            return out
+        if p._is_local(f, e.id):
+            return []
+        return _global_object(p, f, e)
+    if isinstance(e, ast.Attribute):
+        v = e.value
+        # attribute of the instance / the class: stores in this frame first, class-level assignment otherwise
+        owner_cls = None
+        me = f.params[0] if f.cls is not None and f.params else None
+        if isinstance(v, ast.Name) and v.id == me and not any(d in ("staticmethod",) for d in map(_deco_name, f.node.decorator_list)):
+            key = (f.qualname, f"{me}.{e.attr}")
+            if key in seen:
+                return []
+            stores = [val for _n, val, kind in _attr_stores(f, me, e.attr) if kind == "whole"]
+            if stores:
+                return [x for val in stores for x in _shared_objects(ctx, f, val, env, depth, truthy_only, seen | {key}, budget - 1)]
+            owner_cls = f.cls.qualname
+        elif isinstance(v, ast.Attribute) and v.attr == "__class__" and isinstance(v.value, ast.Name) and v.value.id == me:
+            owner_cls = f.cls.qualname
+        elif isinstance(v, ast.Call) and isinstance(v.func, ast.Name) and v.func.id == "type" and len(v.args) == 1 and isinstance(v.args[0], ast.Name) and v.args[0].id == me:
+            owner_cls = f.cls.qualname
+        elif dotted(v) is not None and not p._is_local(f, dotted(v).split(".")[0]):
+            q = p.resolve_dotted(f.module, dotted(v))
+            if q in p.classes:
+                owner_cls = q
+        if owner_cls is not None:
+            for cq in p.mro(owner_cls):
+                c = p.classes.get(cq)
+                vals = _toplevel_values(c.node, e.attr) if c is not None else []
+                if vals:
+                    return [f"the class-level object `{cq.rsplit('.', 1)[-1]}.{e.attr} = {_norm(x)}` (one object for every instance)" for x in vals if _mutable_value(x)]
+            return []
+        d = dotted(e)
+        if d is not None and not p._is_local(f, d.split(".")[0]):
+            return _global_object(p, f, e)
+        return []
+    if isinstance(e, ast.Call):
+        fn = e.func
+        d = dotted(fn) or ""
+        if d in ("copy.deepcopy", "deepcopy"):
+            return []
+        if isinstance(fn, ast.Attribute) and fn.attr in ("values", "keys", "items", "copy", "get", "setdefault", "pop", "union", "__or__") and not e.keywords:
+            return rec(fn.value) + ([x for a in e.args[1:] for x in rec(a)] if fn.attr in ("get", "setdefault", "pop") else [x for a in e.args for x in rec(a)] if fn.attr in ("union", "__or__") else [])
+        if d in ("copy.copy",) or (isinstance(fn, ast.Name) and fn.id in _SHALLOW and builtin(p, f, e) is not None) or d in ("collections.OrderedDict", "itertools.chain", "chain"):
+            return [x for a in e.args for x in rec(a)] + [x for k in e.keywords if k.arg is None for x in rec(k.value)]
+        targets = resolved(p, f, e)
+        if any(q in p.classes for q in targets):
+            return []  # a constructor: the object is created by this evaluation
+        out = []
+        for q in targets:
+            h = p.functions.get(q)
+            if h is not None and not isinstance(h.node, ast.Lambda) and {_deco_name(x) for x in h.node.decorator_list} & _MEMO:
+                out.append(f"the result of the memoised helper `{h.qualname.rsplit('.', 1)[-1]}` (@{sorted({_deco_name(x) for x in h.node.decorator_list} & _MEMO)[0]}: the same object on every call)")
+        if out or depth <= 0:
+            return out
+        frames = _helper_frames(p, f, e, env)
+        for h, henv in frames or []:
+            key = (h.qualname, "<call>")
+            if key in seen:
+                continue
+            for r in [n for n in h.body_nodes() if isinstance(n, ast.Return) and n.value is not None]:
+                out.extend(_shared_objects(ctx, h, r.value, henv, depth - 1, truthy_only, seen | {key}, budget - 1))
+        return out
+    return []
+
+
+def _global_object(p, f, e) -> list[str]:
+    """`e` (a bare or dotted name that is not local to `f`) denotes a module-level mutable object of the program."""
+    d = dotted(e)
+    if d is None:
+        return []
+    q = p.resolve_dotted(f.module, d)
+    if q is None or q in p.functions or q in p.classes or q in p.modules:
+        return []
+    modname, _, attr = q.rpartition(".")
+    m = p.modules.get(modname)
+    if m is None:
+        return []
+    vals = _toplevel_values(m.tree, attr)
+    return [f"the module-level object `{attr} = {_norm(x)}` of {m.relpath} (one object for the whole process)" for x in vals if _mutable_value(x)][:1]
+
+
+def _attr_stores(m, me: str, attr: str):
+    """Stores into `<me>.<attr>` in method `m`: (statement, stored value, kind) with kind `whole` (the attribute is
+    bound), `item` (`<me>.<attr>[k] = v`, `.setdefault(k, v)`: v becomes an element) or `merge` (`.update(x)`,
+    `|= x`: the elements of x become elements)."""
+    def is_attr(x) -> bool:
+        return isinstance(x, ast.Attribute) and x.attr == attr and isinstance(x.value, ast.Name) and x.value.id == me
+
+    out = []
+    for n in m.body_nodes():
+        if isinstance(n, (ast.Assign, ast.AnnAssign)) and n.value is not None:
+            for t in (n.targets if isinstance(n, ast.Assign) else [n.target]):
+                if is_attr(t):
+                    out.append((n, n.value, "whole"))
+                elif isinstance(t, ast.Subscript) and is_attr(t.value):
+                    out.append((n, n.value, "item"))
+                elif isinstance(t, (ast.Tuple, ast.List)):
+                    for i, x in enumerate(t.elts):
+                        if is_attr(x) or (isinstance(x, ast.Subscript) and is_attr(x.value)):
+                            v = n.value
+                            ok = isinstance(v, (ast.Tuple, ast.List)) and len(v.elts) == len(t.elts) and not any(isinstance(y, ast.Starred) for y in list(v.elts) + list(t.elts))
+                            out.append((n, v.elts[i] if ok else v, "whole" if is_attr(x) else "item"))
+        elif isinstance(n, ast.AugAssign) and is_attr(n.target) and isinstance(n.op, ast.BitOr):
+            out.append((n, n.value, "merge"))
+        elif isinstance(n, ast.Call) and isinstance(n.func, ast.Attribute) and is_attr(n.func.value):
+            if n.func.attr == "update":
+                for a in n.args:
+                    out.append((n, a, "merge"))
+            elif n.func.attr == "setdefault" and len(n.args) == 2:
+                out.append((n, n.args[1], "item"))
+    return out
+
+
+def r4(ctx):
+    p = ctx.prog
+    cls = p.cls(HW)
+    init = p.func(f"{HW}.__init__")
+    n_init = 0
+    for name, m in sorted(cls.methods.items()):
+        if not m.params or any(d in ("staticmethod", "classmethod") for d in map(_deco_name, m.node.decorator_list)):
+            continue
+        me = m.params[0]
+        for i, (stmt, val, kind) in enumerate(_attr_stores(m, me, "storage")):
+            shared = list(dict.fromkeys(_shared_objects(ctx, m, val)))
+            if m is init and kind == "whole":
+                n_init += 1
+            what = {"whole": f"`{me}.storage` is bound to", "item": f"an entry of `{me}.storage` is bound to", "merge": f"`{me}.storage` is filled with the entries of"}[kind]
+            ctx.ob("R4", f"Hardware.{name}: {what} the caller's argument or an object created by this call (never a module-level / class-level object or a mutable default)",
+                   not shared, func=m, node=stmt, instance=f"Hardware.{name}:owns-storage:{kind}:{i}",
+                   message=f"Hardware.{name}: `{_norm(stmt)}` -- {what} " + "; ".join(shared) + ": instances share it, and the in-place operators (Hardware.__ior__, "
+                           "Storage.__ior__) and the connectors that fill `.storage[...]` of one instance change every other one (Hardware() is no longer the neutral element)")
+    if n_init == 0:
+        # the constructor may delegate to a method of the class that binds the attribute (extract-method)
+        helpers = [q for c in init.calls() for q in resolved(p, init, c) if q in p.functions and p.functions[q].cls is not None and p.functions[q].cls.qualname in p.mro(HW)
+                   and any(k == "whole" for _n, _v, k in _attr_stores(p.functions[q], p.functions[q].params[0] if p.functions[q].params else "", "storage"))]
+        ctx.require(bool(helpers), "C14.R4: Hardware.__init__ does not bind `self.storage` (directly or through a method of the class): shape not interpretable")
+    vals = [x for cq in p.mro(HW) if cq in p.classes for x in _toplevel_values(p.classes[cq].node, "storage")]
+    bad = [x for x in vals if _mutable_value(x)]
+    ctx.ob("R4", "Hardware has no mutable class-level `storage` (a fallback every instance would share)", not bad, func=init, node=bad[0] if bad else cls.node, instance="Hardware:class-level-storage",
+           message=f"Hardware defines the class-level attribute `storage = {_norm(bad[0]) if bad else ''}`: every instance whose constructor does not bind its own map shares this one")
 
 
 def _reduce_facts(ctx, f):
@@ -1164,8 +1481,8 @@ def _reduce_facts(ctx, f):
     return rets[0].value.id, f"{loops[0].target.id}.mount_point"
 
 
-RULES = [("R1", r1), ("R2", r2), ("R3", r3)]
-FLOORS = {"R1": 23, "R2": 9, "R3": 12}
+RULES = [("R1", r1), ("R2", r2), ("R3", r3), ("R4", r4)]
+FLOORS = {"R1": 23, "R2": 9, "R3": 12, "R4": 2}
 
 HADD, HSUB, SAT = f"{HW}.__add__", f"{HW}.__sub__", f"{HW}.satisfies"
 SADD, SSUB = f"{ST}.__add__", f"{ST}.__sub__"
@@ -1195,6 +1512,12 @@ _SAT_LOOP = ("    if not (self.cores >= other.cores and self.memory >= other.mem
              "        if not self_norm[other_disk.mount_point].size >= other_disk.size:\n"
              "            return False\n"
              "    return True")
+
+HINIT = f"{HW}.__init__"
+_OWN = "self.storage: MutableMapping[str, Storage] = storage or {os.sep: Storage(os.sep, 0.0)}"
+_OWN_DEFAULT = "storage or {os.sep: Storage(os.sep, 0.0)}"
+_ROOT_MAP = "\n_ROOT_STORAGE: MutableMapping[str, Storage] = {os.sep: Storage(os.sep, 0.0)}\n"
+_SIG = "storage: MutableMapping[str, Storage] | None=None):"
 
 VARIANTS = [
     # ---- R1
@@ -1278,7 +1601,35 @@ VARIANTS = [
       "if not any((d.size for d in self.storage.values())):\n        return {}\n    return _reduce_storages(", "R3"),
     V("_normalize_storage fast path through a temporary keyed by bind", FILE, NORM, "return _reduce_storages(",
       "quick = {d.bind: d for d in self.storage.values()}\n    if self.is_normalized():\n        return quick\n    return _reduce_storages(", "R3"),
+    # ---- R4
+    V("default storage map hoisted to a module-level constant shared by every instance (seeded C14 round 3)", FILE, HINIT, _OWN_DEFAULT, "storage or _ROOT_STORAGE", "R4", control=True, append=_ROOT_MAP),
+    V("default storage map is a shallow copy of a module-level constant (the root Storage stays shared)", FILE, HINIT, _OWN_DEFAULT, "storage or dict(_ROOT_STORAGE)", "R4", append=_ROOT_MAP),
+    V("fresh map around a module-level root Storage", FILE, HINIT, _OWN_DEFAULT, "storage or {os.sep: _ROOT_DISK}", "R4", append="\n_ROOT_DISK = Storage(os.sep, 0.0)\n"),
+    V("module-level default through a temporary and a guard clause", FILE, HINIT, _OWN,
+      "if not storage:\n        storage = _ROOT_STORAGE\n    self.storage: MutableMapping[str, Storage] = storage", "R4", append=_ROOT_MAP),
+    V("module-level default selected by a conditional expression", FILE, HINIT, _OWN_DEFAULT, "storage if storage is not None and len(storage) > 0 else _ROOT_STORAGE", "R4", append=_ROOT_MAP),
+    V("default storage map as a mutable default argument", FILE, HW, _SIG, "storage: MutableMapping[str, Storage]={os.sep: Storage(os.sep, 0.0)}):", "R4"),
+    V("default storage map kept as a class-level constant", FILE, HW, _OWN_DEFAULT + "\n\n    def __repr__", "storage or type(self)._ROOT\n    _ROOT = {os.sep: Storage(os.sep, 0.0)}\n\n    def __repr__", "R4"),
+    V("default storage map built by a memoised helper", FILE, HINIT, _OWN_DEFAULT, "storage or _root_storage()", "R4",
+      append="\nimport functools\n\n\n@functools.lru_cache(maxsize=None)\ndef _root_storage():\n    return {os.sep: Storage(os.sep, 0.0)}\n"),
+    V("default storage map returned by an extracted helper that hands out the module-level constant", FILE, HINIT, _OWN_DEFAULT, "storage or _root_storage()", "R4",
+      append=_ROOT_MAP + "\n\ndef _root_storage():\n    return _ROOT_STORAGE\n"),
+    V("constructor delegates to a private method that binds the module-level constant", FILE, HW, _OWN + "\n\n    def __repr__",
+      "self._bind_storage(storage)\n\n    def _bind_storage(self, disks):\n        self.storage = disks or _ROOT_STORAGE\n\n    def __repr__", "R4", append=_ROOT_MAP),
+    V("__ior__ inserts a module-level root Storage", FILE, f"{HW}.__ior__", "self.cores += other.cores", "self.storage.setdefault(os.sep, _ROOT_DISK)\n    self.cores += other.cores", "R4",
+      append="\n_ROOT_DISK = Storage(os.sep, 0.0)\n"),
     # ---- benign
+    V("default storage map: guard clause and temporary", FILE, HINIT, _OWN,
+      "disks = storage\n    if disks is None or len(disks) == 0:\n        disks = {os.sep: Storage(os.sep, 0.0)}\n    self.storage: MutableMapping[str, Storage] = disks", None),
+    V("default storage map: conditional expression", FILE, HINIT, _OWN_DEFAULT, "storage if storage else {os.sep: Storage(os.sep, 0.0)}", None),
+    V("default storage map built by an extracted module-level helper (a fresh map per call)", FILE, HINIT, _OWN_DEFAULT, "storage or _root_storage()", None,
+      append="\n\ndef _root_storage() -> MutableMapping[str, Storage]:\n    root = Storage(os.sep, 0.0)\n    return {root.mount_point: root}\n"),
+    V("default storage map: deep copy of a module-level template", FILE, HINIT, _OWN_DEFAULT, "storage or copy.deepcopy(_ROOT_STORAGE)", None, append=_ROOT_MAP),
+    V("default storage map keyed by a module-level string constant", FILE, HINIT, _OWN_DEFAULT, "storage or {_ROOT: Storage(_ROOT, _NO_SPACE)}", None, append="\n_ROOT = os.sep\n_NO_SPACE = 0.0\n"),
+    V("default storage map: dict() call with a comprehension over a module-level tuple of mount points", FILE, HINIT, _OWN_DEFAULT,
+      "storage or dict(((m, Storage(m, 0.0)) for m in _DEFAULT_MOUNTS))", None, append="\n_DEFAULT_MOUNTS = (os.sep,)\n"),
+    V("constructor delegates to a private method that binds a fresh map", FILE, HW, _OWN + "\n\n    def __repr__",
+      "self._bind_storage(storage)\n\n    def _bind_storage(self, disks):\n        self.storage = disks or {os.sep: Storage(os.sep, 0.0)}\n\n    def __repr__", None),
     V("storage fold extracted into a shared private helper, itertools.chain instead of unpacking (B19-2)", FILE, HW, _SUB_INLINE, _SUB_HELPER, None),
     V("extracted helper: temporaries, keyword call", FILE, HW, _SUB_INLINE,
       _SUB_HELPER.replace("self._combine_storage(other, Storage.__sub__.__call__)", "self._combine_storage(operator=Storage.__sub__.__call__, other=other)")
